@@ -77,6 +77,8 @@ def check_deals(sim, obs, m, t):
                 if p > 1 << 40 and coeffs and coeffs in unobserved:
                     return f'{who}: coefficient vector {coeffs} of secret #{h} was already used by an earlier dealing', nt
                 unobserved.add(coeffs)
+                if s != 0:
+                    nt += 1
             continue
         if len(draws) != t * n:
             return f'{who}: {len(draws)} random coefficients drawn, expected t*n = {t * n}', nt
